@@ -46,7 +46,9 @@ Judge(r) ==
            stray == {e.oid : e \in (obs \ exp) \cup (exp \ obs)}
            supers == {o.oid : o \in {x \in P.occs : x.name = "super"}} IN
        IF obs # exp
-         THEN IF occ.file \in ImportedTwice(files[r.main]) \/ OccOf(P, d).file \in ImportedTwice(files[r.main])
+         THEN IF stray # {} /\ \A x \in stray : x \in {q.oid : q \in P.occs} /\ ShadowedByUntaken(P, OccOf(P, x))
+                THEN <<V(r.id, "deviation", "UntakenDefinitionShadows", "edit set " \o ToString(obs) \o " expected " \o ToString(exp) \o at)>>
+              ELSE IF occ.file \in ImportedTwice(files[r.main]) \/ OccOf(P, d).file \in ImportedTwice(files[r.main])
                 (* the symbol lives in a file that is imported twice: one symbol per import, the edit covers the usages of one *)
                 THEN <<V(r.id, "deviation", "RenameWithFileImportedTwice", "edit set " \o ToString(obs) \o " expected " \o ToString(exp) \o at)>>
               ELSE IF r.astral # <<>> /\ stray \subseteq (SeqSet(r.astral) \cup {-2})
